@@ -14,6 +14,14 @@ CHECKS = {
             "Trusts torch autograd (cross-checked by FD on smooth maps); |unnormalised parameter| kept to O(8); rows whose "
             "oracle is ill-conditioned or saturating (exp/tanh/sigmoid overflow) are counted inconclusive, not passed.",
             "DESIGN.md 3/C01"),
+    "C02": ("Hypothesis-generated invertible transforms x regimes x special-point inputs; round trips in both orders against a "
+            "tolerance derived from the measured Jacobian conditioning plus declared approximation constants",
+            "Exploration: generated invertible zoo transforms (incl. reload-into-differently-seeded-instance histories) x "
+            "regimes (zero/equal/nonuniform weighted up) x special inputs; inverse(forward(x)) = x, forward(inverse(y)) = y for y "
+            "drawn in the range, inverse log-det = -forward log-det at the returned point, all finite.",
+            "Tolerance 1e-8*(|y|*||J^-1|| + |x|) + A*||J^-1|| with J from float64 autograd / one-sided FD at special points; rows "
+            "with ||J^-1|| > 1e6, saturating chains, or conditioner outputs beyond |10| are inconclusive (counted).",
+            "DESIGN.md 3/C02"),
     "C20": ("exhaustive small-shape enumeration + Hypothesis generation against numpy reference models; bit-level "
             "argument-unchanged comparison",
             "Exploration: every utils helper on an exhaustive grid of small shapes/integer arguments and on generated "
